@@ -436,7 +436,7 @@ func parallelDo(n int, f func(i int)) {
 }
 
 func writeReplay(dir, prop string, ob *Obligation, vc *VC, reason string) string {
-	path := filepath.Join(dir, prop+"-"+sanitize(ob.Name)+".txt")
+	path := filepath.Join(dir, fmt.Sprintf("%s-%s-%d.txt", prop, sanitize(ob.Name), ob.Index))
 	var b strings.Builder
 	fmt.Fprintf(&b, "property: %s\nobligation: %s\nkind: %s\nfunction: %s\nsource: %s\nreason: %s\nsolver: %s result: %s\n\n", prop, ob.Name, ob.Kind, ob.Fn, ob.Pos, reason, ob.Solver, ob.Result)
 	fmt.Fprintf(&b, "goal (must be valid under the facts of the function's verification condition):\n  guard: %s\n  cond:  %s\n\n", ob.Guard, ob.Cond)
